@@ -436,10 +436,10 @@ func c16Global(c *Case) {
 	defer func() { xpath.RegexpCache = saved }()
 	capacity := 1 + g.Intn(3)
 	var loads int64
-	// the client's loader customises the semantics (case-insensitive matching) - what the exported variable is for
+	// the client's loader customises the semantics (whole-string, case-insensitive matching) - what the exported variable is for
 	custom := xpath.NewLoadingCache(func(key interface{}) (interface{}, error) {
 		atomic.AddInt64(&loads, 1)
-		return regexp.Compile("(?i)" + key.(string))
+		return regexp.Compile("(?i)^(?:" + key.(string) + ")$")
 	}, capacity)
 	d := valueDoc(c.GShared("doc", int64(c.Index/16)))
 	var pats []string
@@ -466,12 +466,30 @@ func c16Global(c *Case) {
 		// the expected value under the client's loader: the same call with (?i) in front of the pattern
 		ci := e
 		ci.Args = append([]xref.Expr(nil), e.Args...)
-		ci.Args[1] = xref.Str{V: "(?i)" + p}
+		ci.Args[1] = xref.Str{V: "(?i)^(?:" + p + ")$"}
 		asts = append(asts, ci)
 		// use the pattern through the DEFAULT cache first: nothing of that may survive the swap
 		opDigestValue(ce, d.Nodes[g.Intn(len(d.Nodes))])
 	}
 	xpath.RegexpCache = custom
+	// right after the swap, the pattern used LAST through the old cache is used first: nothing remembered
+	// outside the cache may answer for it
+	for k := len(exprs) - 1; k >= 0; k-- {
+		for _, ctx := range []*xdoc.Node{d.Root, d.Nodes[len(d.Nodes)/2]} {
+			want, oof := xref.SafeEval(asts[k], xref.NewCtx(ctx))
+			if oof != "" {
+				continue
+			}
+			if got := opDigestValue(exprs[k], ctx); got != fmtValue(want) {
+				c.Violation("SWAPPED-REGEXPCACHE", map[string]interface{}{"observed": fmt.Sprintf("%s at %s right after the swap: got %s, with the client's loader it is %s", xref.Render(asts[k]), ctx.Label(), got, fmtValue(want)), "capacity": capacity, "patterns": pats})
+				return
+			}
+		}
+	}
+	if l := atomic.LoadInt64(&loads); l == 0 {
+		c.Violation("SWAPPED-REGEXPCACHE", map[string]interface{}{"observed": "the client's loader was never called although every pattern was requested after the swap", "patterns": pats})
+		return
+	}
 	var wg sync.WaitGroup
 	var viol atomic.Value
 	ng := 1 + g.Intn(6)
